@@ -149,7 +149,7 @@ func genCases(cfg vlib.Cfg) []caseSpec {
 		cases = append(cases, sp)
 	}
 	kinds := allKinds()
-	rounds := cfg.N(1, 10)
+	rounds := cfg.N(1, 7)
 	rr := vlib.NewRand(cfg.Seed, "C06/plan", 0)
 	for round := 0; round < rounds; round++ {
 		for _, k := range kinds {
